@@ -521,7 +521,11 @@ def g_godambe(s, P, light=True):
     for _ in range(s.randint(1, 3)):
         r = s.random()
         if r < 0.25:
-            P.add('G.FIM_uncert', f, pts, W(p0), data, **dict(multinom=multinom, eps=eps, log=s.chance(0.3)))
+            lg = s.chance(0.3)
+            P.add('G.FIM_uncert', f, pts, W(p0), data, **dict(multinom=multinom, eps=eps, log=lg))
+            if s.chance(0.4):
+                # the same call on another grid setting (E5: everything but the grid agrees)
+                P.add('G.FIM_uncert', f, [14] if pts != [14] else [10], W(p0), data, **dict(multinom=multinom, eps=eps, log=lg))
         elif r < 0.5:
             P.add('G.GIM_uncert', f, pts, boots, W(p0), data, **dict(multinom=multinom, eps=eps, log=s.chance(0.3)))
         elif r < 0.7 and k >= 2:
@@ -578,7 +582,10 @@ def g_godambe_real(s, P):
     data = P.add('S.scale', model, 50.0)
     r = s.random()
     if r < 0.5:
-        P.add('G.FIM_uncert', f, pts, p0, data, multinom=s.chance(0.5))
+        mn = s.chance(0.5)
+        P.add('G.FIM_uncert', f, pts, p0, data, multinom=mn)
+        if s.chance(0.5):
+            P.add('G.FIM_uncert', f, [pts[0] + 4], p0, data, multinom=mn)
     else:
         boots = [P.add('mk_spectrum', 20 + b, [ns[0] + 1], 0.0, False, None, 20.0) for b in range(3)]
         P.add('G.GIM_uncert', f, pts, boots, p0, data, multinom=s.chance(0.5))
